@@ -530,6 +530,19 @@ def assertEq3 (tbl : Table α) (a b eps : Quantity α) : AssertRes :=
       | .error _ => .qerr
       | .ok d => if qle tbl ⟨NumOps.abs d.value, d.unit, true⟩ eps then .ok else .failed
 
+/-- a value as the front ends display it: the quantity plus the conversion target of `with_conversion_target`
+(`6 hours -> 45 min` is displayed as `8 × 45 min`) -/
+structure Displayed (α : Type) where
+  q : Quantity α
+  target : Option (Quantity α)
+
+/-- `Op::ConvertTo` including the display target: it is set iff the right operand's magnitude is not 1, and a
+previous target never survives (`convert_to` builds a fresh quantity) -/
+def vmConvertDisplay (tbl : Table α) (a b : Quantity α) : Except QErr (Displayed α) :=
+  match vmConvertTo tbl a b with
+  | .ok r => .ok ⟨r, if beq b.value one then none else some b⟩
+  | .error e => .error e
+
 /-- registry information per table row -/
 structure RegRow where
   isAbbreviation : Bool
